@@ -17,9 +17,10 @@
                `Decoder.Enum` and whether it would call `Decoder.Bitmask` instead of `Decoder.Integer`
                (the generic decoder: `noHints`).
   * The XML reader is a CURSOR over the token stream (`xmlReader` shares one `xml.Decoder` between a
-    structure and its sub-reader): `Next` skips the content of non-structure elements only, `Struct`
-    drains unread children with `Next` — so an unread STRUCTURE child is stepped into, not over, and
-    the elements that follow it surface one level up.  The model reproduces this.
+    structure and its sub-reader): `Next` skips the content of the current element unless it is a
+    structure whose content `Struct` has consumed (`entered`, since /repo 7083171: before, an unread
+    STRUCTURE child was stepped into while draining and the elements after it surfaced one level up);
+    `Struct` drains the children its callback left unread with `Next`.
 
   Strings are `List Nat` (bytes), as in `Model/Registry.lean`, whose tag / enumeration / mask text
   functions and `strconv` model (`parseUint`, `parseInt`, `hex0x`, …) are reused here.
@@ -317,7 +318,7 @@ end
 inductive Tok where
   | start (name : Str) (attrs : Attrs)
   | stop
-  deriving Repr, Inhabited
+  deriving Repr, Inhabited, DecidableEq
 
 mutual
   def XElem.toks : XElem → List Tok
@@ -332,10 +333,12 @@ def attr (k : Str) : Attrs → Option Str
   | [] => none
   | (a, v) :: r => if a == k then some v else attr k r
 
-/-- an `xmlReader`: its current element and the position of the shared `xml.Decoder`. -/
+/-- an `xmlReader`: its current element, the position of the shared `xml.Decoder`, and `entered`: the
+    content of the current (structure) element has been consumed through `Struct`. -/
 structure XCur where
   elem : Option (Str × Attrs)
   rest : List Tok
+  entered : Bool := false
   deriving Repr, Inhabited
 
 /-- `rawTag()`. -/
@@ -364,9 +367,10 @@ def skip : Nat → List Tok → Res (List Tok)
   | 0, .stop :: r => .ok r
   | d + 1, .stop :: r => skip d r
 
-/-- `Next()`. -/
+/-- `Next()`: skip the content of the current element — unless it is a structure already consumed by
+    `Struct` —, clear `entered`, move to the next start or end element. -/
 def XCur.next (c : XCur) : Res XCur := do
-  let rest ← if c.ty != 0 && c.ty != 1 then skip 0 c.rest else .ok c.rest
+  let rest ← if c.ty != 0 && (c.ty != 1 || !c.entered) then skip 0 c.rest else .ok c.rest
   match rest with
   | [] => if c.elem.isSome then .ok { elem := none, rest := [] } else .err .eof
   | .start n a :: r => .ok { elem := some (n, a), rest := r }
@@ -458,7 +462,7 @@ mutual
           let sub ← XCur.next { elem := none, rest := c.rest }
           let (cs, sub') ← xDecodeFields T R H fuel sub
           let sub'' ← drain (sub'.rest.length + 1) sub'
-          let c' ← XCur.next { elem := c.elem, rest := sub''.rest }
+          let c' ← XCur.next { elem := c.elem, rest := sub''.rest, entered := true }
           pure (.struct tag cs, c')
       | _ => .err .unsupported
   /-- `Struct.TagDecodeTTLV`: `for d.Tag() != 0 { field.DecodeTTLV(d) }`. -/
